@@ -45,7 +45,14 @@ def zint(v):
     raise Unsupported(f"not an int: {v!r}")
 
 
+_UNSPEC = [0]
+
+
 def zreal(v):
+    from . import nparr as _np
+    if isinstance(v, _np.MaybeInf):
+        _UNSPEC[0] += 1
+        return z3.If(v.isinf, z3.Real("unspecified_inf_%d" % _UNSPEC[0]), zreal(v.val))
     if isinstance(v, z3.ExprRef):
         return z3.ToReal(v) if v.sort() == z3.IntSort() else v
     if isinstance(v, bool):
@@ -164,8 +171,21 @@ def truth(I, ctx, v):
 # ----------------------------------------------------------------------
 def binop(I, ctx, op, a, b):
     from . import nparr
+    if isinstance(a, nparr.NArr2) or isinstance(b, nparr.NArr2):
+        if isinstance(a, nparr.NArr) or isinstance(b, nparr.NArr):
+            raise Unsupported("broadcasting a vector against a matrix")
+        return nparr.lift2(lambda x, y: binop(I, ctx, op, x, y), a, b)
     if isinstance(a, nparr.NArr) or isinstance(b, nparr.NArr):
         return nparr.arr_binop(I, ctx, op, a, b)
+    if isinstance(a, nparr.MaybeInf) or isinstance(b, nparr.MaybeInf):
+        # where the operand is infinite the result is left unspecified (a later read of it is an unknown real)
+        ca = a.isinf if isinstance(a, nparr.MaybeInf) else z3.BoolVal(False)
+        cb = b.isinf if isinstance(b, nparr.MaybeInf) else z3.BoolVal(False)
+        va = a.val if isinstance(a, nparr.MaybeInf) else a
+        vb = b.val if isinstance(b, nparr.MaybeInf) else b
+        return nparr.MaybeInf(smt.simp(z3.Or(ca, cb)), binop(I, ctx, op, va, vb))
+    if isinstance(a, nparr.Inf) or isinstance(b, nparr.Inf):
+        raise Unsupported(f"arithmetic on +inf outside numpy.minimum at {ctx.where}")
     # user-defined / array operators first
     for x, y, refl in ((a, b, False), (b, a, True)):
         if isinstance(x, Opaque) and x.attrs.get("binop"):
@@ -372,6 +392,18 @@ def ite_val(cond, fa, fb):
 def merge_vals(cond, a, b):
     if a is b:
         return a
+    from . import nparr as _np
+    def _ext(v):
+        if isinstance(v, _np.Inf):
+            return (z3.BoolVal(v.positive), z3.BoolVal(not v.positive), None)
+        if isinstance(v, _np.MaybeInf):
+            return (v.isinf, v.isneg, v.val)
+        return (z3.BoolVal(False), z3.BoolVal(False), v)
+    if isinstance(a, (_np.Inf, _np.MaybeInf)) or isinstance(b, (_np.Inf, _np.MaybeInf)):
+        pa, na, va = _ext(a)
+        pb, nb_, vb = _ext(b)
+        val = va if vb is None else vb if va is None else merge_vals(cond, va, vb)
+        return _np.MaybeInf(smt.simp(z3.If(cond, pa, pb)), val, smt.simp(z3.If(cond, na, nb_)))
     if isinstance(a, (Sym, int, float, bool)) and isinstance(b, (Sym, int, float, bool)):
         if _boolish(a) and _boolish(b):
             return wrap(z3.If(cond, zbool(a), zbool(b)))
@@ -566,6 +598,10 @@ def _zb(f):
 
 def compare(I, ctx, op, a, b):
     from . import nparr
+    if isinstance(a, nparr.NArr2) or isinstance(b, nparr.NArr2):
+        r = nparr.lift2(lambda x, y: builtin_compare(I, ctx, op, x, y), a, b)
+        r.dtype = "bool"
+        return r
     if (isinstance(a, nparr.NArr) or isinstance(b, nparr.NArr)) and isinstance(op, (ast.Eq, ast.NotEq, ast.Lt, ast.LtE, ast.Gt, ast.GtE)):
         return nparr.arr_compare(I, ctx, op, a, b)
     if isinstance(op, ast.Is):
@@ -614,6 +650,11 @@ def builtin_compare(I, ctx, op, a, b):
 
 def order_formula(I, ctx, op, a, b):
     a, b = enum_str(a), enum_str(b)
+    from . import nparr as _np
+    if isinstance(a, _np.MaybeInf):
+        a = Sym(zreal(a))
+    if isinstance(b, _np.MaybeInf):
+        b = Sym(zreal(b))
     if is_num(a) and is_num(b):
         if not isinstance(a, Sym) and not isinstance(b, Sym):
             return {ast.Lt: a < b, ast.LtE: a <= b, ast.Gt: a > b, ast.GtE: a >= b}[type(op)]
@@ -803,6 +844,8 @@ def norm_index(I, ctx, i, n):
 def getitem(I, ctx, o, k):
     from .interp import hkey
     from . import nparr
+    if isinstance(o, nparr.NArr2):
+        return nparr.narr2_getitem(I, ctx, o, k)
     if isinstance(o, nparr.NArr):
         return nparr.narr_getitem(I, ctx, o, k)
     if isinstance(k, tuple) and k and k[0] == "slice":
@@ -1052,6 +1095,11 @@ def getattr_(I, ctx, o, name, default=_MISSING):
     from .interp import SuperVal
     from . import pybuiltins as PB
     from . import nparr
+    if isinstance(o, nparr.NArr2):
+        r = nparr.narr2_getattr(I, ctx, o, name)
+        if r is not None:
+            return r
+        raise Unsupported(f"2-D ndarray.{name} is not modelled at {ctx.where}")
     if isinstance(o, nparr.NArr):
         r = nparr.arr_getattr(I, ctx, o, name)
         if r is not None:
